@@ -266,7 +266,9 @@ class QuadricTensor(ProjectiveTensor, ABC):
     @property
     def dual(self) -> QuadricTensor:
         """The dual quadric."""
-        return type(self)(inv(self.array), is_dual=not self.is_dual, copy=False)
+        # Circle, Sphere, Cone, ... have specialised constructors and cannot be rebuilt from a matrix
+        cls = next(c for c in type(self).__mro__ if c in (Conic, Quadric, QuadricCollection))
+        return cls(inv(self.array), is_dual=not self.is_dual, copy=False)
 
 
 class Quadric(QuadricTensor, BoundTensor):
